@@ -240,6 +240,11 @@ def run(R):
                                     if lt in (f'self.{trie}.get({key})', f'self.{trie}[{key}]', f'self.{trie}.get({key}, None)'):
                                         ident.append((tn, isinstance(tn.ast.ops[0], ast.Is)))
                             inst = f'{hq} :: {norm(n.ast)}'
+                            # ... and only when timeout() reported that no other entry is left in the node
+                            empt = [tn for tn in h.cfg.nodes if tn.kind == 'test' and isinstance(tn.ast, ast.Call) and callee_attr(tn.ast) == 'timeout']
+                            if not empt or n.id in h.cfg.reachable(removed_edges={(tn.id, True) for tn in empt}):
+                                R.fail('C03.MPT.1', inst + ' (emptiness)', hq, n.ast, 'the PIT node is deleted although timeout() did not report it empty: '
+                                       'other Interests pending under the same name are dropped', site(h, n.ast))
                             if not ident or n.id in h.cfg.reachable(removed_edges={(tn.id, lab) for (tn, lab) in ident}):
                                 R.fail('C03.MPT.1', inst, hq, n.ast, 'the PIT node is deleted by name without checking that it is still the '
                                        'node this waiter registered in (a node re-created by a later express would be dropped)', site(h, n.ast))
